@@ -23,6 +23,7 @@ import (
 	"net/http"
 	"net/http/httputil"
 	"net/url"
+	"strings"
 	"time"
 
 	"github.com/rs/zerolog"
@@ -147,8 +148,9 @@ func (r *requestContext) rewriteRequest(targetURL *url.URL) func(req *httputil.P
 		// and have not been dropped
 		forwardedHost := proxyReq.In.Header.Get("X-Forwarded-Host")
 		forwardedProto := proxyReq.In.Header.Get("X-Forwarded-Proto")
-		forwardedFor := proxyReq.In.Header.Get("X-Forwarded-For")
-		forwarded := proxyReq.In.Header.Get("Forwarded")
+		// both headers are lists, which can be spread over multiple header lines
+		forwardedFor := strings.Join(proxyReq.In.Header.Values("X-Forwarded-For"), ", ")
+		forwarded := strings.Join(proxyReq.In.Header.Values("Forwarded"), ", ")
 		proto := x.IfThenElse(proxyReq.In.TLS != nil, "https", "http")
 		clientIP := httpx.IPFromHostPort(r.req.RemoteAddr)
 
